@@ -17,8 +17,11 @@ Prop  on the implementation's own outputs, exact rationals of the recorded float
       (b) return 0  => the pivot it leaves (position 0 after the interchange) is nonzero;
       (c) an eligible candidate exists => a pivot is chosen, and a return of jcol+1 leaves exactly
           `fill_tol` (rounded to the storage type) + 0i as the pivot;
-      (d) the chosen row is an eligible candidate of the column — or, when there is none, the free row —
-          and after the interchange it heads the column.
+      (d) the chosen row is an eligible candidate of the column and after the interchange it heads the
+          column; inside a factorization (family `ilu`) a column without eligible candidate must not
+          return 0 (only the free row could be taken, with return value jcol+1).  In the unit-level family
+          `ilupiv` inputs outside the hypotheses of `ilu_pivot_total` (no eligible candidate) are generated
+          on purpose: for them only (a), (b) and the bit mirror are evaluated.
 -/
 namespace Slu.Drv.IluEvents
 open Slu Slu.Ilu Slu.Drv.Lu
@@ -167,7 +170,7 @@ after the routine returned without a pivot (open finding) -/
 def IEv.usable (e : IEv) : Bool := e.haveExit && !e.clamped && !e.badrow
 
 /-- Prop clauses on the implementation's outputs; `none` = all hold -/
-def evProp (c : Case) (evs : Array IEv) : Option String := Id.run do
+def evProp (c : Case) (evs : Array IEv) (unitLevel : Bool := false) : Option String := Id.run do
   let dbl := c.isDouble
   let w := if c.isComplex then 2 else 1
   let P := Pools.ofCase c
@@ -187,7 +190,13 @@ def evProp (c : Case) (evs : Array IEv) : Option String := Id.run do
       match ratAt dbl w s.v1 0 with
       | some (x, y) => if x == 0 ∧ y == 0 then return some s!"{where_}: returns 0 but the pivot it leaves is exactly zero"
       | none => pure ()
-    if anyElig then
+    -- unit level: `usepr` with a remembered row that is not an eligible candidate of the column is outside the
+    -- documented precondition of SamePattern_SameRowPerm (the routine then tests the FIRST candidate but
+    -- records the remembered row); only the bit mirror is evaluated on such inputs
+    let reuseOk := !unitLevel || !e.useprIn || eligRows.contains e.oldrowRaw
+    -- `drop_sum >= 0` (and real) in the variants where it is a sum of magnitudes: hypothesis `hds` of the theorems
+    let dsOk := !e.milu.absVariant || (match ratAt dbl w s.ds 0 with | some (x, y) => x ≥ 0 ∧ y == 0 | none => false)
+    if anyElig ∧ reuseOk ∧ dsOk then
       -- a pivot must have been chosen: an eligible candidate row heading the column
       if !(eligRows.contains e.pivrow) then
         return some s!"{where_}: the chosen pivot row {e.pivrow} is not an eligible candidate (eligible rows {eligRows})"
@@ -199,7 +208,7 @@ def evProp (c : Case) (evs : Array IEv) : Option String := Id.run do
           if x ≠ ft ∨ y ≠ 0 then return some s!"{where_}: returns jcol+1 but the stored pivot is not fill_tol"
         | none, _ => return some s!"{where_}: returns jcol+1 but the stored pivot is not finite"
         | _, none => pure ()
-    else if e.info == 0 then
+    else if e.info == 0 ∧ !unitLevel then
       return some s!"{where_}: returns 0 although no candidate row is eligible (chosen row {e.pivrow})"
   return none
 
